@@ -351,8 +351,10 @@ class T1Builder:
     template; nodes of different classes get different labels."""
 
     def __init__(self, ch: list[list[int]], rep: list[int], scheme: str,
-                 seed: int = 0, leaf: str = "ph") -> None:
+                 seed: int = 0, leaf: str = "ph",
+                 allowed: list[str] | None = None) -> None:
         self.ch, self.rep, self.scheme, self.leaf = ch, rep, scheme, leaf
+        self.allowed = allowed or [s for s in T1_SCHEMES if not s.startswith("mixed")]
         self.rng = np.random.default_rng(
             [seed, len(ch), sum(map(len, ch)), T1_SCHEMES.index(scheme)])
         #: number of axes of leaves and index lambdas (indexing templates need room)
@@ -382,8 +384,7 @@ class T1Builder:
             else:
                 t = self.scheme
                 if t.startswith("mixed"):
-                    t = str(self.rng.choice([s for s in T1_SCHEMES
-                                             if not s.startswith("mixed")]))
+                    t = str(self.rng.choice(self.allowed))
             node = None
             if t != "leaf":
                 try:
@@ -405,7 +406,7 @@ class T1Builder:
     def _probe(node: Any) -> None:
         """the derived attributes mappers look at must be computable"""
         _ = (node.shape, node.dtype, node.ndim, node.axes, node.tags)
-        if len(node.axes) != node.ndim or node.ndim < 1:
+        if len(node.axes) != node.ndim:
             raise ValueError("axes/ndim mismatch")
 
     # -- templates
@@ -415,7 +416,10 @@ class T1Builder:
         r = self.rep[k - 1]
         kind = self.leaf
         if kind == "mix":
-            kind = ["ph", "recv", "dw", "const"][r % 4]
+            kind = ["ph", "recv", "dw", "const", "sp"][r % 5]
+        if kind == "sp" and self.nd == 1:
+            # a size parameter (shape ()) -- fine wherever the leaf is not indexed
+            return pt.SizeParam(name=f"n{r}", tags=self._tags(k))
         if kind == "recv":
             return DistributedRecv(src_rank=0, comm_tag=r, shape=(2,) * self.nd,
                                    dtype=np.dtype(np.int64),
@@ -586,12 +590,28 @@ class T1Builder:
         return call["out"]
 
 
+#: Templates used on ladders: the rails run through operand-like edges
+#: (bindings, einsum args, CSR parts, send payloads, call bindings, dict
+#: entries, loopy bindings).  Not used on ladders:
+#:  * Stack / Concatenate / advanced indexing: pytato's own uncached
+#:    ``dtype``/``shape`` properties look at every operand and are exponential
+#:    on ladders -- a cost of building and probing, not of a mapper;
+#:  * rails through SHAPE fields (ilshape, phshape, recvshape): array-valued
+#:    shapes are documented to be affine expressions of size parameters, so a
+#:    depth-60 chain of shapes of shapes is not a pytato program;
+#:    ``EqualityComparer.map_placeholder`` / ``map_distributed_recv`` compare
+#:    shapes with an un-memoised ``==`` and would be exponential there (noted in
+#:    notes/mapper.md as an observation, not a violation).
+LADDER_SCHEMES = ["il", "ilrev", "einsum", "csr", "send", "call", "dict", "loopy"]
+
+
 def build_t1(ch: list[list[int]], rep: list[int], scheme: str, *, seed: int = 0,
-             leaf: str = "ph", root: str = "array") -> tuple[Any, list[Any], list[str]]:
+             leaf: str = "ph", root: str = "array",
+             allowed: list[str] | None = None) -> tuple[Any, list[Any], list[str]]:
     """-> (root object, main real node of every abstract node, template used
     per node).  root = "array": the node itself; "dict": a DictOfNamedArrays
     with the root and node 1 as outputs."""
-    b = T1Builder(ch, rep, scheme, seed, leaf)
+    b = T1Builder(ch, rep, scheme, seed, leaf, allowed)
     nodes = b.build()
     r: Any = nodes[-1]
     if root == "dict":
@@ -1493,7 +1513,7 @@ def build_t2(ch: list[list[int]], rep: list[int], variant: str, *, seed: int = 0
             elif v == "remap":
                 if b is None:
                     node = [a.T, pt.roll(a, 1, 0), a[::-1, :], pt.reshape(a, (2, 8)).reshape(4, 4),
-                            a[np.array([3, 2, 1, 0])]][w % 5]
+                            a[pt.make_placeholder("idx", (4,), np.int64)]][w % 5]
                 else:
                     node = [pt.concatenate([a, b])[2:6], pt.stack([a, b])[w % 2],
                             pt.concatenate([a, b], axis=1)[:, ::2]][w % 3]
@@ -1502,7 +1522,7 @@ def build_t2(ch: list[list[int]], rep: list[int], variant: str, *, seed: int = 0
             else:
                 if b is None:
                     node = [pt.einsum("ij->ji", a), pt.einsum("ij,ij->ij", a, a),
-                            pt.einsum("ii->i", a)[:, None] * a][w % 3]
+                            pt.reshape(pt.einsum("ii->i", a), (4, 1)) * a][w % 3]
                 else:
                     node = [a @ b, pt.einsum("ij,kj->ik", a, b), pt.einsum("ij,ij->ij", a, b)][w % 3]
                     if c is not None:
@@ -1512,3 +1532,211 @@ def build_t2(ch: list[list[int]], rep: list[int], variant: str, *, seed: int = 0
     if root == "array":
         return nodes[-1]
     return pt.make_dict_of_named_arrays({"out0": nodes[-1], "out1": nodes[0] + nodes[-1]})
+
+
+# --------------------------------------------------------------------------
+# 8. mapper-based public functions (entry points) under observation
+
+def _numpy_target() -> Any:
+    from pytato.target.python import BoundPythonProgram, NumpyLikePythonTarget
+
+    class NpTarget(NumpyLikePythonTarget):
+        numpy_like_module_name = "numpy"
+        numpy_like_module_name_shorthand = "_pt_np"
+
+        def bind_program(self, program: Any, entrypoint: Any, expected_arguments: Any,
+                         bound_arguments: Any) -> Any:
+            return BoundPythonProgram(target=self, program=program, entrypoint=entrypoint,
+                                      expected_arguments=expected_arguments,
+                                      bound_arguments=bound_arguments)
+    return NpTarget()
+
+
+def entry_points() -> dict[str, Callable[[Any], Any]]:
+    """name -> callable(root: DictOfNamedArrays); each is a mapper-based public
+    function of pytato (or the documented way to drive a mapper class that is
+    only reachable through one)."""
+    import pytato as pt
+    import pytato.analysis as an
+    import pytato.transform as tr
+    from pytato.tags import ImplStored
+    from pytato.transform.calls import inline_calls, tag_all_calls_to_be_inlined
+    from pytato.transform.dead_code_elimination import eliminate_dead_code
+    from pytato.transform.einsum_distributive_law import (
+        DoNotDistribute, apply_distributive_property_to_einsums)
+    from pytato.transform.lower_to_index_lambda import to_index_lambda
+    from pytato.transform.materialize import materialize_with_mpms
+    from pytato.transform.metadata import unify_axes_tags
+    from pytato.transform.remove_broadcasts_einsum import rewrite_einsums_with_no_broadcasts
+
+    from ptverif.usertags import FooTag
+
+    def dedup_then(f: Callable[[Any], Any]) -> Callable[[Any], Any]:
+        return lambda r: f(tr.deduplicate(r))
+
+    def lower_all(r: Any) -> Any:
+        g = reflect(r)
+        return [to_index_lambda(o) for o in g.objs
+                if isinstance(o, pt.Array) and not isinstance(
+                    o, (pt.InputArgumentBase, pt.NamedArray, pt.IndexLambda))]
+
+    def gen_loopy(r: Any) -> Any:
+        from ptverif import cexec
+        return pt.generate_loopy(tr.deduplicate(r), target=cexec.make_target())
+
+    def gen_numpy(r: Any) -> Any:
+        from pytato.target.python.numpy_like import generate_numpy_like
+        return generate_numpy_like(tr.deduplicate(r), _numpy_target(), "_pt_kernel", False,
+                                   (), ())
+
+    def preprocess(r: Any) -> Any:
+        from ptverif import cexec
+        return pt.codegen.preprocess(tr.deduplicate(r), cexec.make_target())
+
+    def users_all(r: Any) -> Any:
+        g = reflect(r)
+        return [tr.rec_get_user_nodes(r, g.objs[0])]
+
+    E: dict[str, Callable[[Any], Any]] = {
+        "deduplicate": tr.deduplicate,
+        "map_and_copy(identity)": lambda r: tr.map_and_copy(r, lambda x: x),
+        "map_and_copy(retag)": dedup_then(lambda r: tr.map_and_copy(
+            r, lambda x: x.tagged(FooTag()) if isinstance(x, pt.IndexLambda) else x)),
+        "copy_dict_of_named_arrays": lambda r: tr.copy_dict_of_named_arrays(r, tr.CopyMapper()),
+        "get_dependencies": dedup_then(tr.get_dependencies),
+        "deduplicate_data_wrappers": tr.deduplicate_data_wrappers,
+        "get_users": dedup_then(tr.get_users),
+        "rec_get_user_nodes": dedup_then(users_all),
+        "eliminate_dead_code": eliminate_dead_code,
+        "materialize_with_mpms": dedup_then(materialize_with_mpms),
+        "inline_calls": dedup_then(inline_calls),
+        "tag_all_calls_to_be_inlined": dedup_then(tag_all_calls_to_be_inlined),
+        "unify_axes_tags": dedup_then(unify_axes_tags),
+        "rewrite_einsums_with_no_broadcasts": dedup_then(rewrite_einsums_with_no_broadcasts),
+        "apply_distributive_property_to_einsums": dedup_then(
+            lambda r: apply_distributive_property_to_einsums(r, lambda e: DoNotDistribute())),
+        "to_index_lambda": lower_all,
+        "get_dot_graph": pt.get_dot_graph,
+        "get_nusers": an.get_nusers,
+        "get_list_of_users": an.get_list_of_users,
+        "get_num_nodes": lambda r: (an.get_num_nodes(r, count_duplicates=False),
+                                    an.get_num_nodes(r, count_duplicates=True)),
+        "get_node_type_counts": an.get_node_type_counts,
+        "get_node_multiplicities": an.get_node_multiplicities,
+        "get_num_call_sites": an.get_num_call_sites,
+        "get_num_tags_of_type": dedup_then(lambda r: an.get_num_tags_of_type(r, ImplStored)),
+        "collect_materialized_nodes": an.collect_materialized_nodes,
+        "codegen.preprocess": preprocess,
+        "generate_loopy": gen_loopy,
+        "generate_numpy_like": gen_numpy,
+        "repr": repr,
+        "hash+eq": lambda r: (hash(r), r == r),
+    }
+    return E
+
+
+#: per class (qualified name, without variant suffix): documented exemptions
+#: for instances observed inside entry points
+CLASS_RULES: dict[str, dict] = {
+    "pytato.transform.materialize.MPMSMaterializer": {
+        "skip_kinds": OPTIONAL_KINDS | {"shape"},
+        "note": "documented: 'Does not attempt to materialize sub-expressions in "
+                "pytato.Array.shape'"},
+    "pytato.analysis.ListOfDirectPredecessorsGetter": {"nonrecursive": True},
+    "pytato.transform.lower_to_index_lambda.ToIndexLambdaMapper": {"nonrecursive": True},
+    "pytato.stringifier.Reprifier": {
+        "skip_kinds": frozenset(set(EDGE_KINDS.values()) | {"slicebound", "function"}),
+        "note": "repr() uses the default truncation depth 3 (documented): only "
+                "OncePerKey / SharedMapsToOne are demanded of those instances"},
+    "pytato.equality.EqualityComparer": {"nonrecursive": True},
+    "pytato.target.loopy.codegen.CodeGenMapper": {"memo": True},
+    "pytato.transform.metadata.AxesTagsEquationCollector": {"memo": True},
+}
+
+#: mapper classes outside the property's anchors (transform/__init__.py,
+#: analysis, equality, stringifier) translate or ignore array-valued SHAPES by
+#: design (code generators hand them to ShapeExpressionMapper /
+#: ShapeToISLExpressionMapper; the axis-tag and einsum rewriters do not look at
+#: them): for those, reaching shape components is not demanded
+SEMANTIC_SKIP = OPTIONAL_KINDS | {"shape"}
+
+
+def union_children_check(trace: Trace, g: Graph, skip_kinds: frozenset[str]) -> list[int]:
+    """For mappers that memoise INSIDE their map methods (the method runs on
+    every use and returns early): a node's required children must have been
+    visited under SOME invocation.  -> numbers of nodes with a missing child"""
+    seen: dict[int, set[int]] = {}
+    st: list[int] = []
+    for e in trace.events:
+        k = g.num[id(e["obj"])]
+        if st and e["ev"] in ("enter", "hit"):
+            seen.setdefault(st[-1], set()).add(k)
+        if e["ev"] == "enter":
+            seen.setdefault(k, set())
+            st.append(k)
+        elif e["ev"] in ("return", "raise", "dup") and st:
+            st.pop()
+    bad = []
+    for k, vis in seen.items():
+        need = {c for c, kd in zip(g.ch[k - 1], g.ek[k - 1]) if kd not in skip_kinds}
+        if not need <= vis:
+            bad.append(k)
+    return bad
+
+
+def class_name_of(mapper: Any, classes: dict[str, type]) -> str | None:
+    for k, c in classes.items():
+        if type(mapper) is c:
+            return k
+    return None
+
+
+def run_entry(ename: str, fn: Callable[[Any], Any], root: Any, interner: Interner,
+              case_id: str, profiles: dict[str, Profile], classes: dict[str, type]) -> dict:
+    """Call a mapper-based public function under observation; every mapper
+    instance it creates yields one record for PtMapperTrace."""
+    res: dict[str, Any] = {"records": [], "findings": [], "case": case_id, "entry": ename,
+                           "classes": {}, "status": "ok"}
+    exc = None
+    with Recorder() as rec:
+        try:
+            fn(root)
+        except Exception as ex:      # noqa: BLE001
+            exc = ex
+    res["exc"] = None if exc is None else f"{type(exc).__name__}: {exc}"[:200]
+    traces = derive_traces(rec.raw)
+    for j, t in enumerate(traces.values()):
+        cname = class_name_of(t.mapper, classes)
+        if cname is None or not t.events:
+            continue
+        res["classes"][cname] = res["classes"].get(cname, 0) + 1
+        rule = CLASS_RULES.get(cname, {})
+        prof = profiles.get(cname)
+        if rule.get("nonrecursive") or (prof is not None and prof.skip
+                                        and "not a" in prof.skip):
+            continue
+        ov = dict(prof.override) if prof is not None else {}
+        ov.pop("ident", None)             # inside an entry point nothing is known to be a copy
+        ov.pop("bound", None)
+        v = infer_variant(t.mapper, t, ov)
+        skip_kinds = rule.get("skip_kinds", prof.skip_kinds if prof else SEMANTIC_SKIP)
+        skip_nodes = prof.skip_nodes if prof else frozenset()
+        if rule.get("memo"):
+            g = reflect(t.tops, interner)
+            for e in t.events:
+                if id(e["obj"]) not in g.num:
+                    g.add(e["obj"])
+            if exc is None:
+                for k in union_children_check(t, g, skip_kinds):
+                    res["findings"].append({
+                        "clause": "AllChildrenReached:child_never_visited",
+                        "mapper": f"{cname}@{ename}", "nodekind": g.kind(k),
+                        "what": f"a required child of a {g.kind(k)} was not visited under "
+                                f"any invocation of its map method"})
+            continue
+        recd, _ = export_trace(t, v, interner, f"{case_id}|{cname}@{ename}|{j}", skip_kinds,
+                               skip_nodes=skip_nodes)
+        if recd["outcome"] == "raise" and exc is None:
+            recd["outcome"] = "raise"      # an exception handled inside the entry point
+        res["records"].append(recd)
+    return res
